@@ -4,7 +4,11 @@ use serde_json::Value;
 pub mod c01;
 pub mod c05;
 pub mod dd;
+pub mod ds;
+pub mod fam;
+pub mod misc;
 pub mod par;
+pub mod viz;
 
 pub struct PropDef {
     pub id: &'static str,
@@ -14,7 +18,7 @@ pub struct PropDef {
 }
 
 pub fn all() -> Vec<PropDef> {
-    vec![c01::def(), dd::def_c06(), dd::def_c07(), dd::def_c08(), c05::c05::def(), c05::c19::def(), par::def_c03(), par::def_c04()]
+    vec![c01::def(), dd::def_c06(), dd::def_c07(), dd::def_c08(), c05::c05::def(), c05::c19::def(), par::def_c03(), par::def_c04(), misc::def_c02(), misc::def_c09(), misc::def_c12(), misc::def_c13(), misc::def_c14(), ds::def_c10(), ds::def_c11(), ds::def_c17(), ds::def_c18(), fam::def_c15(), viz::def()]
 }
 pub fn find(id: &str) -> Option<PropDef> {
     all().into_iter().find(|d| d.id == id)
